@@ -299,6 +299,9 @@ class TraitList(list):
             The modified list.
         """
 
+        # Like list, accept anything that implements the index protocol (and
+        # nothing else).
+        value = operator.index(value)
         if value < 1:
             removed = self.copy()
             multiplied = super().__imul__(value)
@@ -398,6 +401,7 @@ class TraitList(list):
             The object to insert.
         """
 
+        index = operator.index(index)
         # For insert, *any* index is valid!
         if index < 0:
             normalized_index = max(index + len(self), 0)
@@ -429,6 +433,7 @@ class TraitList(list):
 
         # We don't need to worry about indices < -len(self) or >= len(self):
         # for those, the pop call will raise anyway.
+        index = operator.index(index)
         normalized_index = index + len(self) if index < 0 else index
         item = super().pop(index)
         self.notify(normalized_index, [item], [])
@@ -675,6 +680,7 @@ class TraitListObject(TraitList):
             The modified list.
         """
 
+        value = operator.index(value)
         self._validate_length(max(0, len(self) * value))
         return super().__imul__(value)
 
@@ -700,7 +706,7 @@ class TraitListObject(TraitList):
 
         if isinstance(key, slice):
             value = list(value)
-            if key.step is None or key.step == 1:
+            if key.step is None or operator.index(key.step) == 1:
                 self._validate_length(len(self) - len(self[key]) + len(value))
             else:
                 # No length change possible, so no need to validate length. But
